@@ -85,4 +85,8 @@ def explicit_faults(plan, result):
 def extra_plans(prop, tier, base_seed):
     """Deterministic plans that are always part of a tier (enumerations, known-finding probes)."""
     f = getattr(module_for(prop), "extra_plans", None)
-    return list(f(tier, base_seed)) if f else []
+    if not f:
+        return []
+    if MODULES[prop] == "checks.rowprops":
+        return list(f(prop, tier, base_seed))
+    return list(f(tier, base_seed))
